@@ -131,6 +131,30 @@ Fixpoint written_for (fs0 : fs) (ops : list op) (p : path) (cur : option bytes) 
         end
       else written_for fs0 r p cur
   end.
+(* the mode a destination is finalised with is the mode of the open that queued it: opening it again does not change
+   whether it is replaced or appended to *)
+Fixpoint queued_kind (fs0 : fs) (ops : list op) (p : path) (cur : option bool) : option bool :=
+  match ops with
+  | [] => cur
+  | Close :: r => queued_kind fs0 r p None
+  | Vanish _ :: r => queued_kind fs0 r p cur
+  | Open q m d :: r =>
+      if path_eqb q p then
+        match cur with
+        | Some k => queued_kind fs0 r p (Some k)
+        | None =>
+            if registers m then
+              if m_plus m && m_r m then
+                match get fs0 p with
+                | Some _ => queued_kind fs0 r p (Some (write_kind m))
+                | None => queued_kind fs0 r p None
+                end
+              else queued_kind fs0 r p (Some (write_kind m))
+            else queued_kind fs0 r p None
+        end
+      else queued_kind fs0 r p cur
+  end.
+
 Definition has_vanish (ops : list op) : bool := existsb (fun o => match o with Vanish _ => true | _ => false end) ops.
 
 Definition prop (k : case) : bool :=
@@ -141,7 +165,10 @@ Definition prop (k : case) : bool :=
       && (has_vanish ops
           || forallb (fun d => match written_for fs0 ops (d_path d) None with
                                | Some c => String.eqb c (d_content d)
-                               | None => false end) dests)      (* what is pending for a destination is what was written for it *)
+                               | None => false end
+                               && match queued_kind fs0 ops (d_path d) None with
+                                  | Some k => Bool.eqb k (d_write d)
+                                  | None => false end) dests)   (* what is pending for a destination is what was written for it, in the mode it was queued with *)
       && forallb (fun d => mem d (since_close ops [])) D      (* nothing discarded by close() is still queued *)
       && match f with
          | FWrite => (negb (noclashb D) || (final_okb fs0 dests after && preservedb fs0 D after)) && N.eqb nleft 0
